@@ -486,6 +486,47 @@ func invalidParams(suite kex.Suite, c kex.CipherSuiteID) {
 			r.Violation("invalid-accepted-device:"+b.name, fmt.Sprintf("%s/%s: device accepted invalid owner parameter %s and holds SEK %x", suite, c, b.name, field(dev, "SEK")), map[string]any{"suite": string(suite), "param": b.name})
 		}
 	}
+	// refused, then genuine: the owner session refuses an invalid parameter and is then given the genuine one (the
+	// device sends again; a store that keeps the live session object, or persists it after the failed message, makes
+	// this the SAME session). The second call may be refused, but if it succeeds both sides must hold the same keys.
+	for _, b := range bads {
+		for _, restore := range []bool{false, true} {
+			r.Evaluations.Add(1)
+			owner := suite.New(nil, c)
+			xA, err := owner.Parameter(mkStream("counter", 11), pub)
+			if err != nil {
+				continue
+			}
+			dev := suite.New(bytes.Clone(xA), c)
+			xB, err := dev.Parameter(mkStream("lcg", 12), pub)
+			if err != nil {
+				continue
+			}
+			repl := map[string]any{"suite": string(suite), "cipher": c, "param": b.name, "history": "Parameter,SetParameter(invalid),SetParameter(genuine)", "restored_in_between": restore}
+			var e1, e2 error
+			if p := probe.Call(func() { e1 = owner.SetParameter(bytes.Clone(b.b), key) }); p != nil || e1 == nil {
+				continue // reported above
+			}
+			if restore {
+				if n, err := persist(suite, owner); err == nil {
+					owner = n
+				} else {
+					continue
+				}
+			}
+			if p := probe.Call(func() { e2 = owner.SetParameter(bytes.Clone(xB), key) }); p != nil {
+				r.Violation(p.Key(), fmt.Sprintf("%s/%d: SetParameter(genuine) after a refused %s panics: %s in %s", suite, c, b.name, p.Value, p.Frame), repl)
+				continue
+			}
+			r.Distinct(fmt.Sprintf("refused-then-genuine|%s|%s|%v|%v", suite, b.name, restore, e2 == nil))
+			if e2 != nil {
+				continue // refusing the session for good is fine
+			}
+			if !bytes.Equal(field(owner, "SEK"), field(dev, "SEK")) || !bytes.Equal(field(owner, "SVK"), field(dev, "SVK")) || len(field(owner, "SEK")) == 0 {
+				r.Violation("keys-differ-after-refused-parameter:"+string(suite), fmt.Sprintf("%s/%d: the owner session refused %s, then accepted the genuine parameter (restored in between: %v), yet owner SEK/SVK %x/%x differ from the device's %x/%x", suite, c, b.name, restore, field(owner, "SEK"), field(owner, "SVK"), field(dev, "SEK"), field(dev, "SVK")), repl)
+			}
+		}
+	}
 	// nil owner key for ASYMKEX, and a second SetParameter on a completed session
 	r.Evaluations.Add(1)
 	owner := suite.New(nil, c)
@@ -632,7 +673,7 @@ func kdfSweep() {
 func main() {
 	r = ev.Start("C14", "exploration")
 	streams := []string{"counter", "lowone", "ff", "lcg"}
-	r.Rule("full product of 6 key-exchange suites x 7 cipher suites; for each: every pair of 4 deterministic randomness streams (incl. leading-zero-heavy and all-ones) with no persistence, every non-empty subset of the 3 persistence points between protocol steps (owner after Parameter, owner after SetParameter, device after Parameter; serialise with MarshalBinary, restore with Suite.New(nil,1)+UnmarshalBinary as the stores do) for two stream pairs (all 7 subsets for one cipher per suite in quick, for all ciphers in thorough); oracles: SEK/SVK sizes, both parties equal, equal to an independent SP800-108 KDF over an independently recomputed shared secret (stdlib ecdh / big.Int / OAEP), tunnel works in both directions, different randomness gives different keys; for every ECDH exchange found with a leading-zero coordinate the same exchange with minimal-length coordinates in transit gives the same keys; every invalid-parameter class per suite presented to owner and device must be rejected without panic and without a key; KDF compared with the reference for both hashes, 8 key lengths, 4 context lengths and every output length 8..2048 bits step 8. distinct = distinct (suite,cipher,derived key) outcomes + invalid classes.")
+	r.Rule("full product of 6 key-exchange suites x 7 cipher suites; for each: every pair of 4 deterministic randomness streams (incl. leading-zero-heavy and all-ones) with no persistence, every non-empty subset of the 3 persistence points between protocol steps (owner after Parameter, owner after SetParameter, device after Parameter; serialise with MarshalBinary, restore with Suite.New(nil,1)+UnmarshalBinary as the stores do) for two stream pairs (all 7 subsets for one cipher per suite in quick, for all ciphers in thorough); oracles: SEK/SVK sizes, both parties equal, equal to an independent SP800-108 KDF over an independently recomputed shared secret (stdlib ecdh / big.Int / OAEP), tunnel works in both directions, different randomness gives different keys; for every ECDH exchange found with a leading-zero coordinate the same exchange with minimal-length coordinates in transit gives the same keys; every invalid-parameter class per suite presented to owner and device must be rejected without panic and without a key; KDF compared with the reference for both hashes, 8 key lengths, 4 context lengths and every output length 8..2048 bits step 8. distinct = distinct (suite,cipher,derived key) outcomes + invalid classes. Refused-then-genuine: for every invalid peer parameter the owner session that refused it is given the genuine parameter next (also after a persist/restore in between): it may refuse, but if it accepts, owner and device hold the same SEK/SVK.")
 	var wg sync.WaitGroup
 	sem := make(chan struct{}, 16)
 	for _, s := range suites {
